@@ -1,4 +1,6 @@
 import HawkModel.Props.C05
+import HawkModel.Props.C11
+import HawkModel.Props.C13
 import HawkModel.Props.C16
 import HawkModel.Props.C16Htb
 import HawkModel.Props.C19
